@@ -347,7 +347,10 @@ class LoopMixin:
             if v0 is not None:
                 self.oblige(sb, f"variant-bounded/{key}", str(lspec.decreases), z3.And(*[v >= 0 for v in v0]), s)
             elif isinstance(s, ast.While):
-                self.note_undecided(f"termination/{key}", "no decreases clause")
+                if lspec is not None and getattr(lspec, "assume_terminates", None):
+                    self.assumed_used.add(f"termination of loop {key!r} in {self.root_spec.target}: {lspec.assume_terminates}")
+                else:
+                    self.note_undecided(f"termination/{key}", "no decreases clause")
             for s3, oc in self.exec_block((pre_body or []) + body, sb):
                 if oc.kind in ("normal", "continue"):
                     self.check_invariants(s3, lspec, "pres", key, s, entry)
@@ -457,6 +460,7 @@ class LoopMixin:
             invariant=[f"0 <= {iname} <= len({sname})"] + base.invariant,
             decreases=base.decreases or f"len({sname}) - {iname}",
             types=base.types,
+            assume_terminates=base.assume_terminates,
         )
         test = ast.parse(f"{iname} < len({sname})", mode="eval").body
         bind = ast.parse(f"__t = {sname}[{iname}]\n{iname} += 1").body
